@@ -56,16 +56,24 @@ Proof.
     intros k. rewrite M. cbn [tset m1]. unfold upd. zcase.
 Qed.
 
+(* table.insert for every reported length 0 <= L <= maxint: when L = maxint
+   (#t + 1 is not an integer) the call fails and changes nothing *)
 Theorem insert_correct pos v st :
-  0 <= len1 st < 2^63 - 1 -> oin64 pos ->
+  0 <= len1 st <= 2^63 - 1 -> oin64 pos ->
   let L := len1 st in
   let p := match pos with Some p => p | None => L + 1 end in
   if insert_pos_ok L p
   then exists st', run (insert_im pos v) st = (ORet tt, st') /\ keeps2 st st' /\
                    forall k, m1 st' k = insert_spec (m1 st) L p v k
-  else run (insert_im pos v) st = (OFail TERange2, st).
+  else exists err, run (insert_im pos v) st = (OFail err, st).
 Proof.
   intros HL Hpos L p. subst L. unfold insert_im, insert_pos_ok. cbn [run tlen].
+  unfold maxint.
+  destruct (len1 st =? 2^63 - 1) eqn:EL.
+  { apply Z.eqb_eq in EL. replace (len1 st + 1 <=? 2^63 - 1) with false by (symmetry; apply Z.leb_gt; lia).
+    rewrite andb_false_r. eexists. reflexivity. }
+  apply Z.eqb_neq in EL.
+  replace (len1 st + 1 <=? 2^63 - 1) with true by (symmetry; apply Z.leb_le; lia). rewrite andb_true_r.
   rewrite (wrap_i64 (len1 st + 1)) by (unfold i64; lia).
   destruct pos as [q|]; cbn [oin64] in Hpos; subst p.
   - unfold in64, minint, maxint in Hpos.
@@ -77,12 +85,11 @@ Proof.
       exists st'. split; [exact R|]. split; [exact K|].
       intros k. rewrite M. unfold insert_spec.
       replace (q + Z.of_nat (Z.to_nat (len1 st - q + 1))) with (len1 st + 1) by lia. reflexivity.
-    + replace ((q <=? 0) || (q >? len1 st + 1)) with true; [reflexivity|].
+    + replace ((q <=? 0) || (q >? len1 st + 1)) with true; [eexists; reflexivity|].
       symmetry. apply orb_true_iff. rewrite Z.gtb_ltb, Z.leb_le, Z.ltb_lt.
       apply andb_false_iff in E. destruct E as [E|E]; zb; lia.
   - replace ((1 <=? len1 st + 1) && (len1 st + 1 <=? len1 st + 1)) with true
       by (symmetry; apply andb_true_iff; split; apply Z.leb_le; lia).
-    replace (len1 st + 1 <=? len1 st) with false by (symmetry; apply Z.leb_gt; lia).
     destruct (insert_loop_run O (len1 st + 1) v st) as (st' & R & K & M); [unfold i64; lia|lia|].
     exists st'. split; [exact R|]. split; [exact K|].
     intros k. rewrite M. unfold insert_spec. cbn [Z.of_nat]. zcase.
@@ -113,7 +120,7 @@ Proof.
 Qed.
 
 Theorem remove_correct pos st :
-  0 <= len1 st < 2^63 - 1 -> oin64 pos ->
+  0 <= len1 st <= 2^63 - 1 -> oin64 pos ->
   let L := len1 st in
   let p := match pos with Some p => p | None => L end in
   if remove_pos_ok L p
@@ -122,12 +129,16 @@ Theorem remove_correct pos st :
   else run (remove_im pos) st = (OFail TERange2, st).
 Proof.
   intros HL Hpos L p. subst L. unfold remove_im. cbn [run tlen].
-  rewrite (wrap_i64 (len1 st + 1)) by (unfold i64; lia).
   assert (Hp : in64 p).
   { subst p. destruct pos; [exact Hpos|]. unfold in64, minint, maxint. lia. }
   unfold in64, minint, maxint in Hp.
   replace (match pos with Some p0 => p0 | None => len1 st end) with p by reflexivity.
   clearbody p. clear Hpos pos.
+  assert (EW : (len1 st <? maxint) && (p =? wrap (len1 st + 1)) = (p =? len1 st + 1)).
+  { unfold maxint. destruct (len1 st <? 2^63 - 1) eqn:EL; cbn [andb].
+    - apply Z.ltb_lt in EL. rewrite (wrap_i64 (len1 st + 1)) by (unfold i64; lia). reflexivity.
+    - apply Z.ltb_ge in EL. symmetry. apply Z.eqb_neq. lia. }
+  rewrite EW. clear EW.
   unfold remove_pos_ok, remove_spec.
   destruct ((p =? len1 st) || (p =? len1 st + 1)) eqn:E.
   - (* erase one element *)
